@@ -34,7 +34,11 @@ KINDS = {
     "nsfs": (True, True),
     "choice": (False, False),
     "choicefs": (False, True),
+    # a file system loader over TWO search paths (p before q): a name is served from
+    # the first directory that has it; store keys are "p/<name>" and "q/<name>"
+    "fs2": (False, True),
 }
+SEARCH2 = ("p", "q")
 
 
 def _mk_loaders(kind: str, cap: int, auto_reload: bool, ns_key: bool, root: Path):
@@ -97,6 +101,13 @@ def _mk_loaders(kind: str, cap: int, auto_reload: bool, ns_key: bool, root: Path
         (root / "u").mkdir()
         cached = wrap(CachingFileSystemLoader, ns_aware)(root / "c", **ck)
         twin = wrap(FileSystemLoader, ns_aware)(root / "u")
+        stores = [("fs", root / "c"), ("fs", root / "u")]
+    elif kind == "fs2":
+        for side in ("c", "u"):
+            for sp in SEARCH2:
+                (root / side / sp).mkdir(parents=True)
+        cached = wrap(CachingFileSystemLoader, False)([root / "c" / sp for sp in SEARCH2], **ck)
+        twin = wrap(FileSystemLoader, False)([root / "u" / sp for sp in SEARCH2])
         stores = [("fs", root / "c"), ("fs", root / "u")]
     elif kind == "choice":
         d1, d2 = {}, {}
@@ -261,8 +272,39 @@ def c_obs(o: tuple) -> str:
     return "Quiet"  # an unexpected exception never equals a Load observation
 
 
+def effective_ops(ops: list[tuple]) -> list[tuple]:
+    """Two search paths, seen as ONE store: a name holds what the first directory
+    that has it holds.  Every Modify / Delete of "p/<name>" or "q/<name>" becomes
+    the Modify / Delete of <name> that a loader over the merged view would see
+    (one model op per implementation op, so the steps stay aligned)."""
+    files: dict[str, int] = {}
+    eff: dict[str, int | None] = {}
+    out = []
+    for op in ops:
+        if op[0] in ("M", "D"):
+            name = op[1].split("/", 1)[1]
+            if op[0] == "M":
+                files[op[1]] = op[2]
+            else:
+                files.pop(op[1], None)
+            before = eff.get(name)
+            now = next((files[f"{sp}/{name}"] for sp in SEARCH2 if f"{sp}/{name}" in files), None)
+            if now == before:
+                # a shadowed file changed, or a file that was not there was deleted: the merged
+                # view is untouched (deleting a name no one has is the model's no-op)
+                out.append(("D", "no-such-template"))
+            else:
+                out.append(("M", name, now) if now is not None else ("D", name))
+            eff[name] = now
+        else:
+            out.append(op)
+    return out
+
+
 def c_parts(kind: str, cap: int, ar: bool, nsk: bool, ops: list[tuple], res: dict[str, Any]) -> tuple[str, str, str]:
     ns_aware, fresh = KINDS[kind]
+    if kind == "fs2":
+        ops = effective_ops(ops)
     cfg = (f"{{| c_cap := {cap}%nat; c_auto_reload := {C.cbool(ar)}; c_ns_key := {C.cbool(nsk)};"
            f" c_ns_aware := {C.cbool(ns_aware)}; c_fresh := {C.cbool(fresh)} |}}")
     exp = C.clist(
@@ -331,6 +373,8 @@ def alphabet(kind: str, nsk: bool) -> list[tuple]:
     # the same template reached through include / render inside another template
     loads += [("L", n, ns, 0, a, tag) for n in NAMES for ns in nss for a in (False, True) for tag in ("include", "render")]
     keys = [f"{ns}/{n}" for ns in NSS for n in NAMES] if ns_aware else list(NAMES)
+    if kind == "fs2":
+        keys = [f"{sp}/{n}" for sp in SEARCH2 for n in NAMES]
     mods = [("M", k, 0) for k in keys]
     dels = [("D", k) for k in keys]
     return loads + mods + dels + [("F",)]
@@ -339,6 +383,9 @@ def alphabet(kind: str, nsk: bool) -> list[tuple]:
 def prefix(kind: str) -> list[tuple]:
     ns_aware, _ = KINDS[kind]
     keys = [f"{ns}/{n}" for ns in NSS for n in NAMES] if ns_aware else list(NAMES)
+    if kind == "fs2":
+        # only the LATER directory is populated at first: adding to the earlier one shadows
+        keys = [f"{SEARCH2[1]}/{n}" for n in NAMES]
     return [("M", k, 10 + i) for i, k in enumerate(keys)]
 
 
@@ -360,6 +407,8 @@ def configs(tier: str) -> list[tuple[str, int, bool, bool]]:
         for cap in (1, 2, 3):
             for ar in (True, False):
                 for nsk in ((True,) if ns_aware else (False, True)):
+                    if kind == "fs2" and (nsk or cap == 3):
+                        continue
                     out.append((kind, cap, ar, nsk))
     return out
 
@@ -382,6 +431,16 @@ CORPUS = [
     ("dict", 2, True, False, [("M", "t", 1), ("L", "t", None, 1, False), ("L", "t", None, 0, False, "include"), ("L", "t", None, 0, True, "render")]),
 ]
 
+# shadowing over two search paths (the defect fixed in /repo e2f7d6d): a file added to an
+# earlier directory, or removed from it again, is what every later load must serve
+for _a1 in (False, True):
+    for _a2 in (False, True):
+        CORPUS.append(("fs2", 2, True, False,
+                       [("M", "q/t", 1), ("L", "t", None, 0, _a1), ("M", "p/t", 2), ("L", "t", None, 0, _a2),
+                        ("L", "t", None, 1, _a1), ("D", "p/t"), ("L", "t", None, 0, _a2), ("M", "q/t", 3),
+                        ("L", "t", None, 0, _a1), ("M", "p/t", 4), ("L", "t", None, 0, _a1, "include"),
+                        ("D", "p/t"), ("L", "t", None, 0, _a2, "render")]))
+
 # Known finding C14-cache-key-collision: the cache key is "<ns>/<name>", so a
 # namespace or an un-namespaced name that contains "/" collides.
 COLLISION = ("dict", 3, True, True,
@@ -399,7 +458,9 @@ def main(chk: C.Check, build: C.Build) -> None:
         kind = cfg[0]
         al = alphabet(kind, cfg[3])
         pre = prefix(kind)
-        if not thorough and (kind not in ("dict", "nsdict") or cfg[1] == 3):
+        if not thorough and kind == "fs2" and cfg[1] == 2:
+            lens = [1, 2]     # shadowing needs two steps after the prefix: sampled like the dict kinds
+        elif not thorough and (kind not in ("dict", "nsdict") or cfg[1] == 3):
             lens = [1]
         else:
             lens = range(1, exhaustive_len + 1)
